@@ -469,9 +469,12 @@ def parseLoop : Bool → List RRset → List RR → List RRset
       | some acc' => parseLoop false acc' rest
       | none => parseLoop false (acc ++ [single r]) rest
 
+/-- `if ttl > 0x7FFFFFFF: ttl = 0` (RFC 2181 §8) -/
+def clampTtl (r : RR) : RR := if r.ttl > 2147483647 then { r with ttl := 0 } else r
+
 /-- the answer section of `dns.message.from_wire(wire, xfr=True, one_rr_per_rrset=oneRR)` for a message
 whose answer records are `recs`, in wire order -/
-def parseAnswer (oneRR : Bool) (recs : List RR) : List RRset := parseLoop oneRR [] recs
+def parseAnswer (oneRR : Bool) (recs : List RR) : List RRset := parseLoop oneRR [] (recs.map clampTtl)
 
 /-- a response message as it is on the wire: header fields and the answer records in order -/
 structure WireMsg where
@@ -482,6 +485,23 @@ structure WireMsg where
 
 /-- `dns.message.from_wire(wire, xfr=True, one_rr_per_rrset=oneRR)` -/
 def readMsg (oneRR : Bool) (w : WireMsg) : Msg := ⟨w.rcode, w.question, parseAnswer oneRR w.recs⟩
+
+/-- the `serial` argument of `make_query` as Python passes it -/
+inductive SerialArg where
+  | absent            -- `None`
+  | int (i : Int)
+  | notInt            -- a str, a float, …
+  deriving DecidableEq, Repr
+
+/-- `make_query(txn_manager, serial)` for any argument: no origin, or a serial that is not an `int`, is refused -/
+def makeQueryOf (origin : Option Name) (z : Zone) : SerialArg → Except XErr (Nat × Option Nat)
+  | .absent => makeQuery origin z none
+  | .int i => makeQuery origin z (some i)
+  | .notInt => .error .ValueError
+
+/-- `extract_serial_from_query(query)` for any message object: anything but a `QueryMessage` is refused -/
+def extractSerialOf (isQueryMessage : Bool) (qtype : Nat) (auth : Option Nat) : Except XErr (Option Nat) :=
+  if isQueryMessage then extractSerial qtype auth else .error .ValueError
 
 /-! ## `dns.query.inbound_xfr`: which query, and UDP first with a TCP retry -/
 
